@@ -134,5 +134,5 @@ def prebuild(tier):
 
 
 SUBCHECKS = [
-    Sub("pairing", cases(), check, 4000, 100000, ("asm",), ("asm", "asm:base", "p64", "p32")),
+    Sub("pairing", cases(), check, 4000, 40000, ("asm",), ("asm", "asm:base", "p64", "p32")),
 ]
